@@ -3,6 +3,7 @@
 package srv
 
 import (
+	"syscall"
 	"encoding/json"
 	"fmt"
 	"net"
@@ -88,6 +89,47 @@ func FreePort() int {
 	return l.Addr().(*net.TCPAddr).Port
 }
 
+// FreePorts returns n distinct free TCP ports: the listeners are held open together, so the kernel
+// cannot hand the same ephemeral port out twice (FreePort called five times in a row occasionally did,
+// and then two of a server's listeners, and their PortProto entries, collided).
+func FreePorts(n int) []int {
+	var ls []net.Listener
+	var out []int
+	for len(out) < n {
+		l, err := net.Listen("tcp", "127.0.0.1:0")
+		if err != nil {
+			out = append(out, 0)
+			continue
+		}
+		ls = append(ls, l)
+		out = append(out, l.Addr().(*net.TCPAddr).Port)
+	}
+	for _, l := range ls {
+		l.Close()
+	}
+	return out
+}
+
+// DeadPort returns a TCP port on which nothing listens and, until release is called, nothing can: the
+// socket is bound but never listens, so connections are refused and neither this process nor a sibling
+// child can be handed the port for a listener of its own (a merely "free" port could be).
+func DeadPort() (port int, release func()) {
+	fd, err := syscall.Socket(syscall.AF_INET, syscall.SOCK_STREAM, 0)
+	if err != nil {
+		return FreePort(), func() {}
+	}
+	if err := syscall.Bind(fd, &syscall.SockaddrInet4{Addr: [4]byte{127, 0, 0, 1}}); err != nil {
+		syscall.Close(fd)
+		return FreePort(), func() {}
+	}
+	sa, err := syscall.Getsockname(fd)
+	if err != nil {
+		syscall.Close(fd)
+		return FreePort(), func() {}
+	}
+	return sa.(*syscall.SockaddrInet4).Port, func() { syscall.Close(fd) }
+}
+
 func FreeUdpPort() int {
 	c, err := net.ListenPacket("udp", "127.0.0.1:0")
 	if err != nil {
@@ -117,7 +159,8 @@ func Start(c Conf, root string) (*Server, error) {
 
 func start1(c Conf, root string) (*Server, error) {
 	s := &Server{Conf: c, Root: root, Notify: NewRecorder(), done: make(chan error, 1)}
-	s.Ports = Ports{Rtmp: FreePort(), Http: FreePort(), Rtsp: FreePort(), WsRtsp: FreePort(), Api: FreePort()}
+	fp := FreePorts(5)
+	s.Ports = Ports{Rtmp: fp[0], Http: fp[1], Rtsp: fp[2], WsRtsp: fp[3], Api: fp[4]}
 	s.Notify.PortProto = map[string][]string{
 		fmt.Sprint(s.Ports.Rtmp):   {"RTMP"},
 		fmt.Sprint(s.Ports.Http):   {"FLV", "TS", "HLS"},
